@@ -19,6 +19,7 @@ def emitted (ps : List Pass) (t : Nat) : Nat := (ps.map fun p => refOf p.inputRe
 
 structure DInvA (G : Graph) (d : Dfs) : Prop where
   facts : ∀ p ∈ d.passes, ∃ s S, PassFacts G s p.ops p.inputRefs S ∧ startupInitOps.contains (G.op s).type = false
+  built : ∀ p ∈ d.passes, ∃ s, buildPass Rules.current G s = .ok p
   startupT : ∀ o ∈ d.startup, startupInitOps.contains (G.op o).type = true
   vt : ∀ t, d.doneT.count t + d.stack.count (.vt t) = G.outputs.count t + emitted d.passes t
   vo : ∀ o, d.doneO.count o + d.stack.count (.vo o) = ((G.op o).outputs.filter (full G d)).length
@@ -100,6 +101,7 @@ theorem vt_step (hW : WFU G rk) (d : Dfs) (t : Nat) (rest : List Task) (hs : d.s
   have hvo := h.vo
   constructor
   · exact h.facts
+  · exact h.built
   · exact h.startupT
   · -- tensor visits
     intro t'
@@ -190,6 +192,7 @@ theorem vo_step_plain (d : Dfs) (o : Nat) (rest : List Task) (hs : d.stack = .vo
     DInvA G { d with stack := rest, doneO := o :: d.doneO, startup := d.startup ++ su } := by
   constructor
   · exact h.facts
+  · exact h.built
   · intro x hx
     rcases List.mem_append.mp hx with hx | hx
     · exact h.startupT x hx
@@ -273,6 +276,10 @@ theorem vo_step_pass (hW : WFU G rk) (d : Dfs) (o : Nat) (rest : List Task) (hs 
     rcases List.mem_cons.mp hp' with rfl | hp'
     · exact ⟨o, S, hF, hty⟩
     · exact h.facts p' hp'
+  · intro p' hp'
+    rcases List.mem_cons.mp hp' with rfl | hp'
+    · exact ⟨o, hp⟩
+    · exact h.built p' hp'
   · exact h.startupT
   · intro t
     have := h.vt t
